@@ -28,7 +28,8 @@ LEVEL_TEXT = ("Application maps (1-3 binaries whose sizes sit around "
               "wait, with foreign and own cores already waiting; each fill's "
               "packet sequence is checked for well-formedness and for "
               "selecting exactly the still-missing cores, and the outcome is "
-              "compared with the machine's core table.")
+              "compared with the machine's core table."
+              ' Two fifths of the cases are preceded, on the same controller, by a (failed or successful) load of an older build of the same files.')
 LEVEL_NOTE = ("Trusted: the machine model's flood-fill semantics (a chip "
               "either takes a whole fill or none of it) and its independent "
               "region decoder. Binaries are whole words; buffer sizes are "
